@@ -76,8 +76,9 @@ type Muxer struct {
 }
 
 type segmentChannel struct {
-	mu sync.Mutex
-	ch chan *Segment
+	mu      sync.Mutex
+	ch      chan *Segment
+	closing chan struct{} // closed by UnregisterProtocol before it waits for mu
 }
 
 type ConnectionClosedError struct {
@@ -198,7 +199,7 @@ func (m *Muxer) RegisterProtocol(
 	// Generate channels
 	senderChan := make(chan *Segment, 10)
 	receiver := make(chan *Segment, 10)
-	receiverChan := &segmentChannel{ch: receiver}
+	receiverChan := &segmentChannel{ch: receiver, closing: make(chan struct{})}
 	// Record channels in protocol sender/receiver maps
 	m.protocolReceiversMutex.Lock()
 	if _, ok := m.protocolSenders[protocolId]; !ok {
@@ -251,6 +252,7 @@ func (m *Muxer) UnregisterProtocol(
 	}
 	// Signal shutdown to protocol
 
+	close(recvChan.closing)
 	recvChan.mu.Lock()
 	defer recvChan.mu.Unlock()
 	if recvChan.ch != nil {
@@ -442,6 +444,10 @@ func (m *Muxer) readLoop() {
 		case <-m.doneChan:
 			recvChan.mu.Unlock()
 			return
+		case <-recvChan.closing:
+			// the protocol is being unregistered: drop the segment
+			recvChan.mu.Unlock()
+			continue
 		case recvChan.ch <- msg:
 			recvChan.mu.Unlock()
 		}
